@@ -77,9 +77,9 @@ func c07(x *runCtx) {
 	c07GrantedTTL(x, lab.KindByName("P-256"), protocol.X509KeyEnc)
 	c07GrantedTTL(x, lab.KindByName("RSA2048RESTR"), protocol.X5ChainKeyEnc)
 	// expiry as the SQLite blob store enforces it (real clock: one kind in the quick tier)
-	c07SqliteExpiry(x, lab.KindByName("P-256"), protocol.X509KeyEnc)
+	c07SqliteExpiry(x, "C07", lab.KindByName("P-256"), protocol.X509KeyEnc)
 	if x.thorough() {
-		c07SqliteExpiry(x, lab.KindByName("RSA2048RESTR"), protocol.X5ChainKeyEnc)
+		c07SqliteExpiry(x, "C07", lab.KindByName("RSA2048RESTR"), protocol.X5ChainKeyEnc)
 	}
 }
 
